@@ -332,7 +332,11 @@ Inductive cmd :=
 | CRefCast (r : Z) (r0 : Z) (t : rty) (forced : bool)   (* r = r0 as! &T / as? &T *)
 | CBorrow (r : Z) (p : Z) (t : rty)     (* r = storage.borrow<&T>(from: p) *)
 | CUse (r : Z) (k : usekind)            (* read through a reference and log *)
-| CShowVar (x : Z).                     (* log the whole tree held by a variable *)
+| CShowVar (x : Z)                      (* log the whole tree held by a variable *)
+| CRefCopy (r : Z) (r0 : Z).            (* r = a copy of the reference value r0: plain copy, passing to /
+                                           returning from a function, storing it in a struct field / array /
+                                           dictionary / optional of a non-resource holder and reading it back,
+                                           directly or through a reference to the holder *)
 
 Definition deref_sto (st : state) (p : Z) (t : rty) : out rsrc :=
   match assoc p (store st) with
@@ -492,6 +496,12 @@ Definition step (c : cmd) (st : state) : out state :=
                    end))
       end
   | CShowVar x => Done (add_log st (LTree (assoc x (vars st))))
+  | CRefCopy r r0 =>
+      match assoc r0 (refs st) with
+      | None => Fail EStatic
+      | Some RDead => Fail EInvalidRef
+      | Some v => set_ref st r v
+      end
   end.
 
 Fixpoint run (cs : list cmd) (st : state) : out state :=
